@@ -30,15 +30,25 @@ Inductive key :=
 | KChange (s : N)        (* block number at which set s became current *)
 | KJst (b : N)           (* justification of block b (lib/grandpa writes it before finalising) *)
 | KPv (r s : N)          (* prevotes of round r, set s *)
-| KPc (r s : N).         (* precommits of round r, set s *)
+| KPc (r s : N)          (* precommits of round r, set s *)
+(* the epoch (BABE) table; the restart path consults none of these keys *)
+| KNed (e b : N)         (* next epoch data announced by block b for epoch e *)
+| KNcd (e b : N)         (* next config data announced by block b for epoch e *)
+| KEpd (e : N)           (* epoch data of epoch e (written when its announcement is finalised) *)
+| KCfd (e : N).          (* config data of epoch e *)
 
-Inductive value := VUnit | VBlk (b : N) | VPair (r s : N) | VNum (n : N).
+(* VGone: the tombstone a deletion leaves.  Deletions occur in the epoch table only; [recover]
+   consults neither the value nor the presence of an epoch key, so a deleted epoch key is
+   represented as a key holding VGone (this keeps "present keys stay present", which the
+   proofs use for the keys the restart does read). *)
+Inductive value := VUnit | VBlk (b : N) | VPair (r s : N) | VNum (n : N) | VGone.
 
 Definition key_eqb (a b : key) : bool :=
   match a, b with
   | KSt x, KSt y | KHdr x, KHdr y | KBlb x, KBlb y | KArr x, KArr y | KHsh x, KHsh y
-  | KAuth x, KAuth y | KChange x, KChange y | KJst x, KJst y => x =? y
-  | KFh r s, KFh r' s' | KPv r s, KPv r' s' | KPc r s, KPc r' s' => (r =? r') && (s =? s')
+  | KAuth x, KAuth y | KChange x, KChange y | KJst x, KJst y | KEpd x, KEpd y | KCfd x, KCfd y => x =? y
+  | KFh r s, KFh r' s' | KPv r s, KPv r' s' | KPc r s, KPc r' s'
+  | KNed r s, KNed r' s' | KNcd r s, KNcd r' s' => (r =? r') && (s =? s')
   | KFsn, KFsn | KHrs, KHrs | KLfr, KLfr | KSetID, KSetID => true
   | _, _ => false
   end.
@@ -92,8 +102,30 @@ Definition chain (bs : blocks) (a b : N) : option (list N) := chain_fuel (S (N.t
 Definition numof (bs : blocks) (i : N) : N := match bget bs i with Some x => b_num x | None => 0 end.
 
 (* ---- scenario operations and the volatile state of the node ---- *)
+(* A scenario operation says WHAT HAPPENED, not why: whether the import / the finalisation
+   applied an authority-set change is a flag of the operation.  The theorems quantify over all
+   flags, so they cover every rule by which changes become applicable and any number of pending
+   scheduled and forced changes (which rule gossamer follows is the subject of property C23; the
+   driver reads the flag off the recorded log, and cross-checks it against the single-pending
+   predictor [pstep] below where that applies).  Likewise the epoch-table writes of a
+   finalisation (FinalizeBABENextEpochData / FinalizeBABENextConfigData: a put, then a batch of
+   deletions) are a list carried by the operation. *)
+Inductive babe := BNone | BEpoch | BConfig | BBoth.      (* BABE consensus digests of a block *)
+Inductive eunit := EPut (k : key) | EDel (l : list key).
+Definition epoch_key (k : key) : bool :=
+  match k with KNed _ _ | KNcd _ _ | KEpd _ | KCfd _ => true | _ => false end.
+Definition eunit_ok (u : eunit) : bool :=
+  match u with EPut k => epoch_key k | EDel l => forallb epoch_key l end.
+Definition eunit_w (u : eunit) : wunit :=
+  match u with EPut k => WPut k VUnit | EDel l => WBatch (map (fun k => (k, VGone)) l) end.
+
+Inductive sop :=
+| Imp (parent : N) (applies : bool) (bd : babe)
+| Fin (b round : N) (applies : bool) (ep : list eunit).
+
+(* the digest-level description of a scenario, for the single-pending predictor *)
 Inductive digest := DNone | DSched (delay : N) | DForced (delay : N).
-Inductive sop := Imp (parent : N) (d : digest) | Fin (b round : N).
+Inductive dop := DImp (parent : N) (d : digest) (bd : babe) | DFin (b round : N) (ep : list eunit).
 
 Record sim := mks {
   s_blocks : blocks;
@@ -123,38 +155,15 @@ Definition set_change_units_prefix (g : N) : list wunit :=
 Section Ops.
   Variable change_units : N -> list wunit.
 
-  (* is a pending change (announced at a, delay d) applied by the import of block x *)
-  Definition forced_applies (bs : blocks) (pend : option (N * N)) (x : N) : bool :=
-    match pend with
-    | Some (a, d) => anc bs a x && (numof bs a + d =? numof bs x)
-    | None => false
-    end.
-  Definition sched_applies (bs : blocks) (pend : option (N * N)) (b : N) : bool :=
-    match pend with
-    | Some (a, d) => anc bs a b && (numof bs a + d <=? numof bs b)
-    | None => false
-    end.
-
-  (* validity of an operation in a state (the scenario generator only produces valid ones) *)
+  (* validity of an operation in a state: the parent of an import is alive; a finalisation
+     finalises the head or a descendant of it, in a later round of the current set, and its
+     epoch writes touch the epoch table only *)
   Definition valid (st : sim) (o : sop) : bool :=
     let bs := s_blocks st in
     match o with
-    | Imp p d =>
-      (p <? N.of_nat (length bs)) && anc bs (s_fin st) p &&
-      match d with
-      | DNone => true
-      | _ => match s_sched st, s_forced st with None, None => true | _, _ => false end
-      end
-    | Fin b r =>
-      (b <? N.of_nat (length bs)) && anc bs (s_fin st) b && (s_round st <? r) &&
-      match s_sched st with
-      | None => true
-      | Some (a, d) => sched_applies bs (s_sched st) b || sanc bs b a
-      end &&
-      match s_forced st with
-      | None => true
-      | Some (a, d) => sanc bs b a
-      end
+    | Imp p _ _ => (p <? N.of_nat (length bs)) && anc bs (s_fin st) p
+    | Fin b r _ ep =>
+      (b <? N.of_nat (length bs)) && anc bs (s_fin st) b && (s_round st <? r) && forallb eunit_ok ep
     end.
 
   (* the writes of SetFinalisedHash for the chain (fin, b] *)
@@ -175,28 +184,40 @@ Section Ops.
     | _ :: _ => [WBatch (map (fun x => (KHsh (numof bs x), VBlk x)) ch)]
     end.
 
+  (* EpochState.HandleBABEDigest persists the announcement of block x under (next epoch, x);
+     all blocks of a scenario lie in epoch 0, so the next epoch is 1 *)
+  Definition babe_units (bd : babe) (x : N) : list wunit :=
+    match bd with
+    | BNone => []
+    | BEpoch => [WPut (KNed 1 x) VUnit]
+    | BConfig => [WPut (KNcd 1 x) VUnit]
+    | BBoth => [WPut (KNed 1 x) VUnit; WPut (KNcd 1 x) VUnit]
+    end.
+
   Definition step (st : sim) (o : sop) : list wunit * sim :=
     if negb (valid st o) then ([], st) else
     let bs := s_blocks st in
     match o with
-    | Imp p d =>
+    | Imp p ap bd =>
       let x := N.of_nat (length bs) in
       let bs' := bs ++ [mkb p (numof bs p + 1)] in
-      let sched' := match d with DSched dl => Some (x, dl) | _ => s_sched st end in
-      let forced' := match d with DForced dl => Some (x, dl) | _ => s_forced st end in
-      if forced_applies bs' forced' x then
-        ([WBatch [(KSt x, VUnit)]] ++ change_units (s_set st),
+      (* core.handleBlock: StoreTrie, AddBlock, the consensus digests, ApplyForcedChanges *)
+      if ap then
+        ([WBatch [(KSt x, VUnit)]] ++ babe_units bd x ++ change_units (s_set st),
          mks bs' (s_fin st) 0 (s_set st + 1) None None)
       else
-        ([WBatch [(KSt x, VUnit)]], mks bs' (s_fin st) (s_round st) (s_set st) sched' forced')
-    | Fin b r =>
+        ([WBatch [(KSt x, VUnit)]] ++ babe_units bd x,
+         mks bs' (s_fin st) (s_round st) (s_set st) (s_sched st) (s_forced st))
+    | Fin b r ap ep =>
       match chain bs (s_fin st) b with
       | None => ([], st)
       | Some ch =>
+        (* lib/grandpa: votes, SetFinalisedHash, SetLatestRound; then the digest handler:
+           FinalizeBABENextEpochData, FinalizeBABENextConfigData, ApplyScheduledChanges *)
         let ws := vote_units b r (s_set st) ++ concat (map (fin_block_units bs) ch) ++ hsh_batch bs ch ++
                   [WPut (KFh r (s_set st)) (VBlk b); WPut KHrs (VPair r (s_set st));
-                   WPut KLfr (VNum r)] in
-        if sched_applies bs (s_sched st) b then
+                   WPut KLfr (VNum r)] ++ map eunit_w ep in
+        if ap then
           (ws ++ change_units (s_set st), mks bs b 0 (s_set st + 1) None (s_forced st))
         else
           (ws, mks bs b r (s_set st) (s_sched st) (s_forced st))
@@ -207,6 +228,72 @@ Section Ops.
     match ops with
     | [] => ([], st)
     | o :: r => let (w, st1) := step st o in let (w', st2) := run st1 r in (w ++ w', st2)
+    end.
+
+  (* ---- the single-pending predictor: which flag gossamer's rules give when at most one
+     GRANDPA change is pending (s_sched / s_forced hold it) ---- *)
+  Definition forced_applies (bs : blocks) (pend : option (N * N)) (x : N) : bool :=
+    match pend with
+    | Some (a, d) => anc bs a x && (numof bs a + d =? numof bs x)
+    | None => false
+    end.
+  Definition sched_applies (bs : blocks) (pend : option (N * N)) (b : N) : bool :=
+    match pend with
+    | Some (a, d) => anc bs a b && (numof bs a + d <=? numof bs b)
+    | None => false
+    end.
+
+  (* the scenario stays within the single-pending class *)
+  Definition pvalid (st : sim) (o : dop) : bool :=
+    let bs := s_blocks st in
+    match o with
+    | DImp p d _ =>
+      (p <? N.of_nat (length bs)) && anc bs (s_fin st) p &&
+      match d with
+      | DNone => true
+      | _ => match s_sched st, s_forced st with None, None => true | _, _ => false end
+      end
+    | DFin b r ep =>
+      (b <? N.of_nat (length bs)) && anc bs (s_fin st) b && (s_round st <? r) && forallb eunit_ok ep &&
+      match s_sched st with
+      | None => true
+      | Some (a, d) => sched_applies bs (s_sched st) b || sanc bs b a
+      end &&
+      match s_forced st with
+      | None => true
+      | Some (a, d) => sanc bs b a
+      end
+    end.
+
+  Definition with_pending (st : sim) (sch frc : option (N * N)) : sim :=
+    mks (s_blocks st) (s_fin st) (s_round st) (s_set st) sch frc.
+
+  Definition pstep (st : sim) (o : dop) : sop * sim :=
+    let bs := s_blocks st in
+    match o with
+    | DImp p d bd =>
+      let x := N.of_nat (length bs) in
+      let bs' := bs ++ [mkb p (numof bs p + 1)] in
+      let sched' := match d with DSched dl => Some (x, dl) | _ => s_sched st end in
+      let forced' := match d with DForced dl => Some (x, dl) | _ => s_forced st end in
+      let ap := forced_applies bs' forced' x in
+      let o' := Imp p ap bd in
+      (o', if ap then snd (step st o') else with_pending (snd (step st o')) sched' forced')
+    | DFin b r ep =>
+      let ap := sched_applies bs (s_sched st) b in
+      let o' := Fin b r ap ep in
+      (o', snd (step st o'))
+    end.
+
+  Fixpoint annot (st : sim) (ops : list dop) : list sop :=
+    match ops with
+    | [] => []
+    | o :: r => let (o', st') := pstep st o in o' :: annot st' r
+    end.
+  Fixpoint pvalid_all (st : sim) (ops : list dop) : bool :=
+    match ops with
+    | [] => true
+    | o :: r => pvalid st o && pvalid_all (snd (pstep st o)) r
     end.
 End Ops.
 
@@ -279,3 +366,7 @@ Definition scenario_valid (ops : list sop) : bool :=
      | [] => true
      | o :: r => valid st o && go (snd (step set_change_units st o)) r
      end) sim0 ops.
+(* the flags the single-pending predictor gives to a digest-level scenario, and whether the
+   scenario is within its class *)
+Definition predict (ops : list dop) : list sop := annot set_change_units sim0 ops.
+Definition single_pending (ops : list dop) : bool := pvalid_all set_change_units sim0 ops.
